@@ -1187,9 +1187,12 @@ class Simulation:
 
             # Get weights, calculate misfit.
             weights = self.data['weights']
-            self._misfit = np.sum(weights*(residual.conj()*residual)).real/2
+            misfit = np.sum(weights*(residual.conj()*residual)).real/2
 
-        return self._misfit.data
+            # Store the value itself, not the DataArray (to_dict; I/O).
+            self._misfit = misfit.data
+
+        return self._misfit
 
     def _bcompute(self):
         """Compute bfields asynchronously for all sources and frequencies."""
